@@ -177,7 +177,7 @@ func runC11(c *C11Case) (string, c11Facts) {
 	}
 	close(start)
 	if done, _, stacks := waitWatchdog(&wg, 180*time.Second); !done {
-		if strings.Contains(stacks, "protoc-go-valid/valid.") && strings.Contains(stacks, "sync.(*") {
+		if strings.Contains(stacks, "protoc-go-valid/valid.") && (strings.Contains(stacks, "sync.(*") || strings.Contains(stacks, "[chan send") || strings.Contains(stacks, "[chan receive") || strings.Contains(stacks, "[select")) {
 			return "deadlock: after 180s the workers are still blocked inside the library:\n" + firstLines(stacks, 60), facts
 		}
 		return "INCONCLUSIVE: watchdog fired but the workers are not blocked in the library", facts
@@ -230,11 +230,14 @@ func genC11Case(t *rapid.T) *C11Case {
 	c := &C11Case{
 		Cache:   rapid.SampledFrom([]string{"lru2", "lru2", "lru8", "lru512", "syncmap", "miss"}).Draw(t, "cache"),
 		Procs:   rapid.SampledFrom([]int{16, 16, 4, 2}).Draw(t, "procs"),
-		G:       rapid.SampledFrom([]int{2, 3, 4, 8, 8, 16, 32}).Draw(t, "goroutines"),
+		G:       rapid.SampledFrom([]int{2, 3, 4, 8, 8, 16, 32, 32, 100}).Draw(t, "goroutines"), // (100: "any number" - more callers at once than any small internal bound)
 		Len:     rapid.IntRange(30, ev.Pick(400, 2000)).Draw(t, "callsPerGoroutine"),
 		Salt:    rapid.IntRange(0, 1<<20).Draw(t, "salt"),
 		Private: rapid.Bool().Draw(t, "private"),
 		BankTag: rapid.SampledFrom(multiTags).Draw(t, "bankTag"),
+	}
+	if c.G > 32 && c.Len > 60 {
+		c.Len = 60
 	}
 	c.BankFrom = rapid.IntRange(0, bankSize-1).Draw(t, "bankFrom")
 	c.BankN = rapid.IntRange(0, 30).Draw(t, "bankN")
@@ -244,7 +247,7 @@ func genC11Case(t *rapid.T) *C11Case {
 	}
 	n := rapid.IntRange(2, 10).Draw(t, "poolSize")
 	for i := 0; i < n; i++ {
-		switch rapid.IntRange(0, 8).Draw(t, "specKind") {
+		switch rapid.IntRange(0, 9).Draw(t, "specKind") {
 		case 8: // exported helpers run next to the validations (shared buffer pool), incl. the JSON dumper's error path
 			c.Pool = append(c.Pool, &Call{H: &HelperCall{Name: rapid.SampledFrom([]string{"dump", "dumpjson", "dumpjson-bad", "dumpjson-bad", "explain", "genkv", "split", "strescape"}).Draw(t, "helper"), Arg: genString(t, "harg", true)}})
 		case 6, 7: // one catalogue rule with several argument / value variants
@@ -284,6 +287,13 @@ func genC11Case(t *rapid.T) *C11Case {
 			}
 			s.pickEntry(rapid.IntRange(0, 7).Draw(t, "entry"))
 			c.Pool = append(c.Pool, &Call{S: s})
+		case 9:
+			// two distinct types with one printed name and different rules, validated side by side
+			for _, tn := range []string{"Item2A", "Item2B"} {
+				s := &StructCase{Root: desc.Ptr(desc.Named(tn)), Entry: "Struct", Val: desc.V{E: []desc.V{{E: []desc.V{
+					desc.Str(rapid.SampledFrom([]string{"", "a"}).Draw(t, "i2Name")), {I: int64(rapid.IntRange(0, 9).Draw(t, "i2N"))}}}}}}
+				c.Pool = append(c.Pool, &Call{S: s})
+			}
 		case 4:
 			tag := rapid.SampledFrom(multiTags).Draw(t, "mtag")
 			s := &StructCase{Root: desc.Ptr(desc.Named("Multi")), Entry: "ValidateStruct", Val: desc.V{E: []desc.V{{E: []desc.V{
